@@ -52,6 +52,17 @@ class BoundProxy:
         setattr(self._r, n, v)
 
 
+HEARTBEAT = [None]      # path of the heartbeat file of the traced run in this process (see shellfam.run_jobs)
+
+
+def _beat():
+    if HEARTBEAT[0]:
+        try:
+            os.utime(HEARTBEAT[0], None)
+        except OSError:
+            pass
+
+
 class FakePool:
     """in-process pool with a `map` and a `size`: results in order, evaluation order scrambled"""
 
@@ -61,6 +72,7 @@ class FakePool:
         self._pickle = pickle_func
 
     def map(self, func, iterable):
+        _beat()
         items = list(iterable)
         order = self._rng.permutation(len(items))
         out = [None] * len(items)
@@ -147,12 +159,7 @@ class Trace:
 
     def snapshot(self, s, label):
         """state dump in the driver's format + numeric data"""
-        hb = self.cfg.get('heartbeat')
-        if hb:
-            try:
-                os.utime(hb, None)
-            except OSError:
-                pass
+        _beat()
         out = []
         nb = len(s.bounds)
         has_blobs = s.blobs is not None
@@ -230,7 +237,9 @@ def make_traced(nautilus):
             n0 = len(self.bounds)
             if n0 > 0:
                 self._open_iteration()
+            _beat()
             ok = super().add_bound(verbose=verbose)
+            _beat()
             tr = self.tr
             if len(self.bounds) == n0 + 1:
                 b = self.bounds[-1]
@@ -283,6 +292,7 @@ def make_traced(nautilus):
             return res
 
         def evaluate_likelihood(self, points):
+            _beat()
             self.tr.eval_log.append(np.array(points))
             res = super().evaluate_likelihood(points)
             if res[1] is not None:
@@ -574,6 +584,7 @@ def run_traced(cfg, max_batches=400):
     import warnings
     warnings.filterwarnings('ignore')
     tr = Trace(cfg)
+    HEARTBEAT[0] = cfg.get('heartbeat')
     prob = Problem(cfg)
     tr.prob = prob
     tmp = tempfile.mkdtemp(prefix='nvtr_')
